@@ -556,7 +556,12 @@ def pl_subsample_case(v, N, which, opts):
     ca = O.CheckSpec("ge", True, a=lo)
     with warnings.catch_warnings():
         warnings.simplefilter("ignore")
-        schema = ppl.DataFrameSchema({"a": ppl.Column(float, ca.build(Check), nullable=nullable, unique=unique_a), "b": ppl.Column(int)})
+        wide = None
+        if opts.get("wide"):  # a dataframe-level check: it sees the selected rows only, like every other data-level check
+            from sympl import PROXY as pl
+
+            wide = Check(lambda d: d.lazyframe.select(pl.col("b").ge(lo)))
+        schema = ppl.DataFrameSchema({"a": ppl.Column(float, ca.build(Check), nullable=nullable, unique=unique_a), "b": ppl.Column(int)}, checks=wide)
     kw = {}
     if h is not None:
         kw["head"] = h
@@ -590,7 +595,10 @@ def pl_subsample_case(v, N, which, opts):
     viol = []
     for i in range(N):
         dup = zor_(z3.And(sel[j], O.eq_cell(xa, na, i, j)) for j in range(N) if j != i)
-        viol.append(z3.And(sel[i], z3.Or(z3.And(z3.Not(v.z(nullable)), na[i]), z3.And(v.z(unique_a), dup), z3.And(z3.Not(na[i]), z3.Not(xa[i] >= v.z(lo))), nb[i])))
+        bad_i = [z3.And(z3.Not(v.z(nullable)), na[i]), z3.And(v.z(unique_a), dup), z3.And(z3.Not(na[i]), z3.Not(xa[i] >= v.z(lo))), nb[i]]
+        if opts.get("wide"):
+            bad_i.append(z3.And(z3.Not(nb[i]), z3.Not(xb[i] >= v.z(lo))))
+        viol.append(z3.And(sel[i], z3.Or(*bad_i)))
     asserts = [("subsample/channel", v.holds(channel_ok(o))), ("subsample/input_unchanged", pl_equal(v, df, snap))]
     asserts.append(("subsample/verdict", v.iff(o["kind"] == "accept", z3.Not(zor_(viol)))))
     if o["kind"] == "accept" and H._is_pl(o["out"]):
@@ -906,6 +914,9 @@ def subsample_cases(tier):
                 if tier == "quick" and lazyframe and which != ["head"]:
                     continue
                 out.append((f"PL/SUB/{'+'.join(which) or 'none'}/lazyframe={int(lazyframe)}/N={N}", pl_subsample_case, (N, which, dict(lazyframe=lazyframe))))
+    for N in (2, 3):
+        for which in (["head"], ["tail"], ["head", "tail"]):
+            out.append((f"PL/SUB/{'+'.join(which)}/wide/N={N}", pl_subsample_case, (N, which, dict(wide=True))))
     for N in (2, 3):
         for which in (["sample"], ["head", "sample"], ["head", "tail", "sample"]):
             out.append((f"PL/SUB/{'+'.join(which)}/lazyframe=0/N={N}", pl_subsample_case, (N, which, {})))
